@@ -46,6 +46,12 @@ structure Inputs where
   wrapOk : Bool
   /-- `self._selector_cls(sock)` succeeds -/
   selOk : Bool
+  /-- code shape (finding D11): `_connect_proxy` closes the socket that had connected to the proxy when
+      anything after the TCP connect fails — `build_request`, the CONNECT `sendall`, a `recv`, the reply
+      parser, the TLS wrap — before the exception propagates (`true` = the repaired code; the pinned
+      commit left that socket open, for the garbage collector to close).  The harness probes the real
+      `_connect_proxy` and passes what it finds. -/
+  pclose : Bool := true
 
 /-- `_connect_sock` returned a socket (it did not raise `_SocketFail`) -/
 def sockOk (i : Inputs) : Bool :=
@@ -129,8 +135,18 @@ def expand (i : Inputs) (x : Proxy.Io) : List Item :=
   | .connectTo _ _ _ => .io x :: (Connect.connectSock i.gai).2.map .sock
   | _ => [.io x]
 
+/-- `except Exception: sock.close(); raise` in `_connect_proxy` (repaired shape): `_connect_sock` had been
+    called (the log is not empty) and had returned the socket of address `k`, and `_connect()` then fails —
+    that socket is closed before the exception leaves `_connect()`.  (On a direct connection `_connect()`
+    fails only when `_connect_sock` does, which has closed every socket it had connected.) -/
+def closeItems (i : Inputs) : List Item :=
+  match connectResult i, (Connect.connectSock i.gai).1 with
+  | .sock _, _ => []
+  | _, .sock k => if i.pclose && !(connectLog i).isEmpty then [.sock (.close k)] else []
+  | _, .fail => []
+
 /-- `_connect()` as items of the composed trace -/
-def phaseItems (i : Inputs) : List Item := (connectLog i).flatMap (expand i)
+def phaseItems (i : Inputs) : List Item := (connectLog i).flatMap (expand i) ++ closeItems i
 
 /-- **The composed trace** of one connection, oldest first.  `run()` is
     `yield Connecting` (the application reacts), `self._connect()`, and the rest; the core model's
